@@ -341,7 +341,11 @@ def baseline_for(indices):
 
 # ---------------------------------------------------------------- streams (E1, in-process)
 DOCS = ['--- a: 1\n', '--- &a [x]\n', '--- *a\n', '--- [&a y, *a]\n', '%TAG !e! tag:e.com,2000:\n--- !e!t v\n', '--- !e!t w\n', '%YAML 1.1\n--- z\n', '--- >\n folded\n text\n',
-        '--- "quoted"\n...\n', '--- !!str\n', '---\n', '%TAG ! tag:x.org,2000:\n--- !loc v\n', '--- !loc v\n', '--- {k: &b {j: 1}, l: *b}\n']
+        '--- "quoted"\n...\n', '--- !!str\n', '---\n', '%TAG ! tag:x.org,2000:\n--- !loc v\n', '--- !loc v\n', '--- {k: &b {j: 1}, l: *b}\n',
+        '--- &a s\n', '--- &b {j: 1}\n', "--- 'sq'\n", '--- |\n lit\n']
+# documents after which a '%' line cannot be taken for the continuation of a plain scalar: a directive may follow them
+# directly (both back-ends accept that), so streams are also built without the explicit document end in between
+CLOSED = {1, 3, 7, 8, 9, 10, 13, 15, 16, 17}
 STREAM_LOADERS = [('Safe/py', yaml.SafeLoader), ('Safe/c', yaml.CSafeLoader), ('Full/py', yaml.FullLoader), ('Unsafe/py', yaml.UnsafeLoader), ('Unsafe/c', yaml.CUnsafeLoader)]
 
 
@@ -386,14 +390,24 @@ def stream_result(api, text, L):
     return out
 
 
-def check_stream(T, ids):
-    text = ''
-    for n, i in enumerate(ids):
-        # a document that carries directives must be preceded by an explicit document end: YAML needs it (an open-ended
-        # plain scalar would otherwise swallow the '%' line)
-        if n and DOCS[i].startswith('%') and not text.endswith('...\n'):
-            text += '...\n'
-        text += DOCS[i]
+def check_stream(T, ids, variants=(True, False)):
+    texts = []
+    for always in variants:
+        text = ''
+        for n, i in enumerate(ids):
+            # a document that carries directives is preceded by an explicit document end: always (first variant), or only
+            # where YAML needs it (an open-ended plain scalar would otherwise swallow the '%' line)
+            if n and DOCS[i].startswith('%') and not text.endswith('...\n') and (always or ids[n - 1] not in CLOSED):
+                text += '...\n'
+            text += DOCS[i]
+        if text not in texts:
+            texts.append(text)
+    for text in texts:
+        _check_stream_text(T, ids, text)
+    T.nontrivial += 1 if len(ids) >= 2 else 0
+
+
+def _check_stream_text(T, ids, text):
     for ln, L in STREAM_LOADERS:
         for api in ('load', 'compose', 'parse'):
             if api != 'load' and not ln.startswith('Safe'):
@@ -412,7 +426,6 @@ def check_stream(T, ids):
                 k = next((j for j in range(min(len(got), len(want))) if got[j] != want[j]), min(len(got), len(want)))
                 T.violation('streams', 'document-not-independent', case,
                             detail='%s %s of %r: document %d gives %s in the stream but %s on its own' % (ln, api, text, k, (got[k] if k < len(got) else 'nothing')[:2] if k < len(got) else 'nothing', want[k] if k < len(want) else 'nothing'))
-    T.nontrivial += 1 if len(ids) >= 2 else 0
 
 
 # ---------------------------------------------------------------- dump-side streams: each document of dump_all stands alone
